@@ -216,10 +216,38 @@ def run_op(op, n, seed, tier, extra=()):
                                env=dict(GOENV, VERIF_PP=os.path.join(BUILD, 'pp'), VERIF_ROOT=VERIF))
         if p.returncode != 0:
             raise RuntimeError('vh %s failed: %s' % (op, p.stderr[-500:]))
+        # the driver is single-threaded: shard the cases over up to 12 driver processes
         with open(tmp.name) as f:
-            q = subprocess.run([drv], stdin=f, stdout=subprocess.PIPE, stderr=subprocess.PIPE, text=True, timeout=7200)
-        if q.returncode != 0:
-            raise RuntimeError('driver failed on %s: %s' % (op, q.stderr[-500:]))
+            lines = f.readlines()
+        k = max(1, min(12, len(lines) // 150))
+        shards = []
+        for i in range(k):
+            sf = tempfile.NamedTemporaryFile('w+', suffix='.shard', delete=False, dir=BUILD)
+            sf.writelines(lines[i::k])
+            sf.flush()
+            sf.seek(0)
+            of = tempfile.NamedTemporaryFile('w+', suffix='.out', delete=False, dir=BUILD)
+            shards.append((sf, of, subprocess.Popen([drv], stdin=sf, stdout=of, stderr=subprocess.PIPE, text=True)))
+        outs = []
+        try:
+            for sf, of, pr in shards:
+                _, e = pr.communicate(timeout=7200)
+                if pr.returncode != 0:
+                    raise RuntimeError('driver failed on %s: %s' % (op, e[-500:]))
+                of.seek(0)
+                outs.append(of.read())
+        finally:
+            for sf, of, pr in shards:
+                if pr.poll() is None:
+                    pr.kill()
+                for fh in (sf, of):
+                    fh.close()
+                    os.unlink(fh.name)
+        del lines
+
+        class _Q:
+            stdout = ''.join(outs)
+        q = _Q()
         cases = {}
         with open(tmp.name) as f:
             for line in f:
